@@ -19,6 +19,15 @@
 (* deterministic but for a stop test that falls on an exact equality.      *)
 (* Every invariant of MDA (NilExact, APriori, APost, Budget, ...) is       *)
 (* evaluated by TLC in every state of every trace.                         *)
+(* A trace also names the FLAVOUR of the harness disciplines, which is not *)
+(* part of the system and therefore changes nothing here:                  *)
+(*   dtype  "float" | "int": the couplings are declared (grammars) and     *)
+(*          exchanged as arrays of integers - admitted only on an integral *)
+(*          orbit (IntegralOrbit; the invariant Integral is checked);      *)
+(*   reuse  a discipline returns the same output array object each time.   *)
+(* Witness per trace (register Len(Traces) + tid): 1 when a stop test ran  *)
+(* against a first residual that vanishes on some resolved variable only   *)
+(* (StalledRef), 2 when it did in a SECOND execution of the object.        *)
 (***************************************************************************)
 EXTENDS MDA, Json, IOUtils, TLCExt
 
@@ -34,6 +43,8 @@ TInit == /\ tid \in 1..Len(Traces)
          /\ ended = 0
          \* "= TRUE": evaluated as a value (TLC would otherwise branch on every disjunct inside)
          /\ (ValidInst(T.inst) /\ ValidCfg(T.inst, T.cfg)) = TRUE
+         /\ (T.dtype \in {"float", "int"} /\ T.reuse \in BOOLEAN) = TRUE
+         /\ (T.dtype = "int" => IntegralOrbit(T.inst, T.cfg)) = TRUE
          /\ Start(T.inst, T.cfg, ExAux(T.inst))
 
 IsEv(e) == l <= Len(T.events) /\ Ev.ev = e /\ l' = l + 1 /\ UNCHANGED tid
@@ -73,9 +84,11 @@ TSilent == Silent /\ (EndPre \/ EndSweep \/ Stop \/ Continue \/ (ended = run /\ 
 TNext == TExec \/ TSingle \/ TEnd \/ TSilent
 
 \* acceptance: furthest event index reached per trace (registers; -workers 1)
-Furthest == TLCSet(tid, IF TLCGet(tid) < l THEN l ELSE TLCGet(tid))
-RegInit == \A i \in 1..Len(Traces) : TLCSet(i, 0)
+WReg == Len(Traces) + tid
+Furthest == /\ TLCSet(tid, IF TLCGet(tid) < l THEN l ELSE TLCGet(tid))
+            /\ (IF StalledRef THEN TLCSet(WReg, MaxI(TLCGet(WReg), run)) ELSE TRUE)
+RegInit == \A i \in 1..(2 * Len(Traces)) : TLCSet(i, 0)
 ASSUME RegInit
 Accepted == \A i \in 1..Len(Traces) :
-   PrintT(<<"TRACE", Traces[i].id, TLCGet(i) - 1, Len(Traces[i].events)>>)
+   PrintT(<<"TRACE", Traces[i].id, TLCGet(i) - 1, Len(Traces[i].events), TLCGet(Len(Traces) + i)>>)
 =============================================================================
